@@ -4,6 +4,7 @@ Signatures are idealised (`Meta.sigKey`, `Meta.sigMsg`): a signature verifies un
 with k on m (EUF-CMA idealisation of the BLS identity signature), so "verifies" is `verifyMessage`'s test.
 -/
 import Drand.DKG.Process
+import Gen.DKGAuth
 
 namespace Drand.DKG
 open Drand
@@ -47,14 +48,14 @@ local macro "exc" " at " h:ident : tactic =>
 
 private theorem verifyMessage_ok {m : Meta} {pk : Packet} {t : Terms} {u} (h : verifyMessage m pk t = .ok u) :
     ∃ part, part ∈ t.remaining ++ t.joining ∧ part.addr = m.addr ∧ m.sigKey = part.key ∧
-      m.sigMsg = messageForSigning m.beaconID pk t := by
+      encodeSegs m.sigMsg = encodeSegs (messageForSigning m.beaconID pk t) := by
   unfold verifyMessage at h
   split at h
   · cases h
   · rename_i part hf
     split at h
     · rename_i hc
-      simp only [Bool.and_eq_true, beq_iff_eq, decide_eq_true_eq] at hc
+      simp only [Bool.and_eq_true, beq_iff_eq] at hc
       have h1 := List.mem_of_find?_eq_some hf
       have h2 := List.find?_some hf
       simp only [beq_iff_eq] at h2
@@ -148,13 +149,14 @@ private theorem receivedRejection_role {d : DBState} {them sender n} (h : d.rece
 
 /-! ### the property -/
 
-/-- a packet that changes anything was signed, over the message derived from the very state being stored, by the key
-that the stored state's own participant lists record for the claimed sender -/
+/-- a packet that changes anything was signed, over the BYTES of the message derived from the very state being stored, by the
+key that the stored state's own participant lists record for the claimed sender. (What equal bytes say about the terms:
+`c09_every_term_and_boundary_covered` for the message as a sequence of fields, DrandProofs/C09Layout.lean for the bytes.) -/
 theorem c09_signed_by_listed (p : Proc) (m : Meta) (pk : Packet) (now : Int)
     (h : (p.packet m pk now).1 ≠ p) :
     ∃ next part, (p.packet m pk now).1.current = some next ∧
       part ∈ next.remaining ++ next.joining ∧ part.addr = m.addr ∧ m.sigKey = part.key ∧
-      m.sigMsg = messageForSigning m.beaconID pk (termsFromState next) := by
+      encodeSegs m.sigMsg = encodeSegs (messageForSigning m.beaconID pk (termsFromState next)) := by
   obtain ⟨n, -, hv, hc⟩ := packet_changed h
   obtain ⟨part, h1, h2, h3, h4⟩ := verifyMessage_ok hv
   exact ⟨n, part, hc, h1, h2, h3, h4⟩
@@ -287,5 +289,203 @@ theorem c09_member_uses_group_keys_corrected (g : GroupLite) (t : Terms) (part :
   obtain ⟨n, hn, h⟩ := this
   simp only [Bool.and_eq_true, beq_iff_eq] at h
   exact ⟨n, hn, h.1, h.2⟩
+
+
+/-! ### who is looked up: the FIRST participant of remaining ++ joining with the claimed address -/
+
+theorem tie_verify_first_match :
+    Gen.DKGAuth.verifyMessageLists = ["Remaining", "Joining"] ∧ Gen.DKGAuth.verifyMessageLookup = "first" := ⟨rfl, rfl⟩
+
+/-- the signed message is made from, and checked against, `termsFromState` of the stored record: every term comes from the
+field of the same name (the catch-up period from `CatchupPeriod`, not from `BeaconPeriod`, …) -/
+theorem tie_terms_from_state :
+    Gen.DKGAuth.termsFromStateFields =
+      ["BeaconID=state.BeaconID", "BeaconPeriodSeconds=uint32(state.BeaconPeriod.Seconds())",
+       "CatchupPeriodSeconds=uint32(state.CatchupPeriod.Seconds())", "Epoch=state.Epoch", "GenesisSeed=state.GenesisSeed",
+       "GenesisTime=timestamppb.New(state.GenesisTime)", "Joining=state.Joining", "Leader=state.Leader", "Leaving=state.Leaving",
+       "Remaining=state.Remaining", "SchemeID=state.SchemeID", "Threshold=state.Threshold",
+       "Timeout=timestamppb.New(state.Timeout)"] := rfl
+
+/-- the writes of `messageForSigning`, in order: the model's `messageForSigning` is this list -/
+theorem tie_signing_writes :
+    Gen.DKGAuth.signingWrites =
+      ["str:\"beaconID:\"+beaconID+\"\\n\"", "switch-on-packet-type", "str:\"Proposal:\\n\"", "str:proposal.GetBeaconID()+\"\\n\"",
+       "bytes:binary.LittleEndian.AppendUint32([]byte{},proposal.GetEpoch())",
+       "str:\"\\nLeader:\"+proposal.GetLeader().GetAddress()+\"\\n\"", "bytes:proposal.GetLeader().GetSignature()",
+       "bytes:binary.LittleEndian.AppendUint32([]byte{},proposal.GetThreshold())",
+       "let:encTimeout=proposal.GetTimeout().AsTime().MarshalBinary()", "bytes:encTimeout",
+       "bytes:binary.LittleEndian.AppendUint32([]byte{},proposal.GetCatchupPeriodSeconds())",
+       "bytes:binary.LittleEndian.AppendUint32([]byte{},proposal.GetBeaconPeriodSeconds())",
+       "str:\"\\nScheme: \"+proposal.GetSchemeID()+\"\\n\"", "let:encGenesis=proposal.GetGenesisTime().AsTime().MarshalBinary()",
+       "bytes:encGenesis", "for:proposal.GetJoining()", "  str:\"\\nJoiner:\"+p.GetAddress()+\"\\nSig:\"", "  bytes:p.GetSignature()",
+       "for:proposal.GetRemaining()", "  str:\"\\nRemainer:\"+p.GetAddress()+\"\\nSig:\"", "  bytes:p.GetSignature()",
+       "for:proposal.GetLeaving()", "  str:\"\\nLeaver:\"+p.GetAddress()+\"\\nSig:\"", "  bytes:p.GetSignature()"] := rfl
+
+/-- the key a packet is verified under is the key of the FIRST entry of remaining ++ joining that carries the claimed address -/
+theorem c09_first_match (m : Meta) (pk : Packet) (t : Terms) (h : verifyMessage m pk t = .ok ()) :
+    ∃ part, (t.remaining ++ t.joining).find? (fun p => p.addr == m.addr) = some part ∧ m.sigKey = part.key := by
+  unfold verifyMessage at h
+  split at h
+  · cases h
+  · rename_i part hf
+    split at h
+    · rename_i hc
+      simp only [Bool.and_eq_true, beq_iff_eq] at hc
+      exact ⟨part, hf, hc.1⟩
+    · cases h
+
+/-- DUPLICATE ADDRESSES: an entry among the joiners that reuses the address of a remaining member (an impostor with its own
+key and a valid self-signature) never supplies the verification key — the member's own entry comes first. -/
+theorem c09_joiner_cannot_shadow_member (m : Meta) (pk : Packet) (t : Terms) (r : Participant) (hr : r ∈ t.remaining)
+    (ha : r.addr = m.addr) (h : verifyMessage m pk t = .ok ()) :
+    ∃ r' ∈ t.remaining, r'.addr = m.addr ∧ m.sigKey = r'.key := by
+  obtain ⟨part, hf, hk⟩ := c09_first_match m pk t h
+  rw [List.find?_append] at hf
+  have hs : (t.remaining.find? (fun p => p.addr == m.addr)).isSome = true := by
+    rw [List.find?_isSome]
+    exact ⟨r, hr, by simpa using ha⟩
+  cases hfr : t.remaining.find? (fun p => p.addr == m.addr) with
+  | none => rw [hfr] at hs; cases hs
+  | some r' =>
+    rw [hfr] at hf
+    have hf : r' = part := by simpa using hf
+    subst hf
+    refine ⟨r', List.mem_of_find?_eq_some hfr, ?_, hk⟩
+    simpa using List.find?_some hfr
+
+/-- … so a packet signed with the impostor's key is refused -/
+theorem c09_impostor_rejected (m : Meta) (pk : Packet) (t : Terms) (r : Participant) (hr : r ∈ t.remaining)
+    (ha : r.addr = m.addr) (hk : ∀ r' ∈ t.remaining, r'.addr = m.addr → r'.key ≠ m.sigKey) :
+    verifyMessage m pk t ≠ .ok () := by
+  intro h
+  obtain ⟨r', h1, h2, h3⟩ := c09_joiner_cannot_shadow_member m pk t r hr ha h
+  exact hk r' h1 h2 h3.symm
+
+def impostorM : Participant := { addr := "m", key := [77], sig := [77], scheme := "pedersen-bls-chained" }
+def dupTerms : Terms :=
+  { beaconID := "default", epoch := 2, threshold := 2, timeout := 100, schemeID := "pedersen-bls-chained", genesisTime := 5,
+    genesisSeed := [9], catchupSec := 1, periodSec := 3, leader := honestL, joining := [impostorM],
+    remaining := [honestL, honestM], leaving := [] }
+
+/-- non-vacuity: terms that list the member "m" among the remaining nodes and an impostor with the same address among the
+joiners — an accept "from m" signed with the member's key verifies, the same signed with the impostor's key does not -/
+def dupMeta (k : Bytes) : Meta :=
+  { beaconID := "default", addr := "m", sigId := "0011223344", sigKey := k,
+    sigMsg := messageForSigning "default" (.accept honestM) dupTerms }
+example :
+    (verifyMessage (dupMeta honestM.key) (.accept honestM) dupTerms).toOption = some () ∧
+    (verifyMessage (dupMeta impostorM.key) (.accept honestM) dupTerms).toOption = none := by
+  decide
+
+/-! ### what the signature covers -/
+
+/-- the entries `messageForSigning` writes for one participant list -/
+def entries (lab : String) (l : List Participant) : List Seg :=
+  l.flatMap (fun p => [Seg.str (lab ++ p.addr ++ "\nSig:"), Seg.bytes p.sig])
+
+private theorem lab_inj (lab a b : String) (h : lab ++ a ++ "\nSig:" = lab ++ b ++ "\nSig:") : a = b := by
+  have := congrArg String.toList h
+  simp at this
+  exact String.ext this
+
+/-- two runs of entries under the same label, each followed by something that does not begin with an entry of that label -/
+private theorem entries_split (lab : String) (j j' : List Participant) (X X' : List Seg)
+    (hX : ∀ a g rest, X ≠ Seg.str (lab ++ a ++ "\nSig:") :: Seg.bytes g :: rest)
+    (hX' : ∀ a g rest, X' ≠ Seg.str (lab ++ a ++ "\nSig:") :: Seg.bytes g :: rest)
+    (h : entries lab j ++ X = entries lab j' ++ X') :
+    j.map (fun p => (p.addr, p.sig)) = j'.map (fun p => (p.addr, p.sig)) ∧ X = X' := by
+  induction j generalizing j' with
+  | nil =>
+    cases j' with
+    | nil => exact ⟨rfl, by simpa [entries] using h⟩
+    | cons b l' =>
+      simp only [entries, List.flatMap_nil, List.nil_append, List.flatMap_cons, List.cons_append] at h
+      exact absurd h (hX _ _ _)
+  | cons a l ih =>
+    cases j' with
+    | nil =>
+      simp only [entries, List.flatMap_nil, List.nil_append, List.flatMap_cons, List.cons_append] at h
+      exact absurd h.symm (hX' _ _ _)
+    | cons b l' =>
+      simp only [entries, List.flatMap_cons, List.cons_append, List.nil_append, List.cons.injEq, Seg.str.injEq,
+        Seg.bytes.injEq] at h
+      obtain ⟨h1, h2, h3⟩ := h
+      obtain ⟨ih1, ih2⟩ := ih l' h3
+      refine ⟨?_, ih2⟩
+      simp only [List.map_cons, List.cons.injEq, Prod.mk.injEq]
+      exact ⟨⟨lab_inj _ _ _ h1, h2⟩, ih1⟩
+
+private theorem head_ne (lab lab' : String) (hne : ∀ a b : String, lab ++ a ++ "\nSig:" ≠ lab' ++ b ++ "\nSig:")
+    (l : List Participant) (Y : List Seg)
+    (hY : ∀ a g rest, Y ≠ Seg.str (lab ++ a ++ "\nSig:") :: Seg.bytes g :: rest) :
+    ∀ a g rest, entries lab' l ++ Y ≠ Seg.str (lab ++ a ++ "\nSig:") :: Seg.bytes g :: rest := by
+  intro a g rest
+  cases l with
+  | nil => simpa [entries] using hY a g rest
+  | cons b l' =>
+    simp only [entries, List.flatMap_cons, List.cons_append, List.nil_append, ne_eq, List.cons.injEq, Seg.str.injEq, not_and]
+    intro h
+    exact absurd h.symm (hne a b.addr)
+
+private theorem nil_ne (lab : String) : ∀ a g rest, ([] : List Seg) ≠ Seg.str (lab ++ a ++ "\nSig:") :: Seg.bytes g :: rest := by
+  intro a g rest h; cases h
+
+private theorem joiner_ne_remainer (a b : String) : "\nJoiner:" ++ a ++ "\nSig:" ≠ "\nRemainer:" ++ b ++ "\nSig:" := by
+  intro h; have := congrArg String.toList h; simp at this
+private theorem joiner_ne_leaver (a b : String) : "\nJoiner:" ++ a ++ "\nSig:" ≠ "\nLeaver:" ++ b ++ "\nSig:" := by
+  intro h; have := congrArg String.toList h; simp at this
+private theorem remainer_ne_leaver (a b : String) : "\nRemainer:" ++ a ++ "\nSig:" ≠ "\nLeaver:" ++ b ++ "\nSig:" := by
+  intro h; have := congrArg String.toList h; simp at this
+
+private theorem str_cancel (pre a b post : String) (h : pre ++ a ++ post = pre ++ b ++ post) : a = b := by
+  have := congrArg String.toList h
+  simp at this
+  exact String.ext this
+
+/-- EVERY TERM AND EVERY LIST BOUNDARY IS BOUND BY THE SIGNED MESSAGE (as a sequence of typed fields): two term records with
+the same signed message agree on the beacon id, the epoch, the threshold, the timeout, the catch-up period, the beacon
+period, the scheme, the genesis time, the leader's address and self-signature, and on the three participant lists —
+which participant (address, self-signature) is joining, which remaining, which leaving, in which order. No hypothesis on
+the lengths of the lists: the role label written before every participant fixes where one list ends and the next
+begins. What is applied by a receiver and NOT in this list: the genesis seed and the participants' public keys
+(`c09_seed_and_keys_not_covered`, findings 16). -/
+theorem c09_every_term_and_boundary_covered (b : String) (pk : Packet) (t t' : Terms)
+    (h : messageForSigning b pk t = messageForSigning b pk t') :
+    t.beaconID = t'.beaconID ∧ t.epoch = t'.epoch ∧ t.threshold = t'.threshold ∧ t.timeout = t'.timeout ∧
+    t.catchupSec = t'.catchupSec ∧ t.periodSec = t'.periodSec ∧ t.schemeID = t'.schemeID ∧ t.genesisTime = t'.genesisTime ∧
+    t.leader.addr = t'.leader.addr ∧ t.leader.sig = t'.leader.sig ∧
+    t.joining.map (fun p => (p.addr, p.sig)) = t'.joining.map (fun p => (p.addr, p.sig)) ∧
+    t.remaining.map (fun p => (p.addr, p.sig)) = t'.remaining.map (fun p => (p.addr, p.sig)) ∧
+    t.leaving.map (fun p => (p.addr, p.sig)) = t'.leaving.map (fun p => (p.addr, p.sig)) := by
+  unfold messageForSigning at h
+  simp only [List.append_assoc] at h
+  have h := List.append_cancel_left h
+  have h := (List.append_inj h rfl).2
+  simp only [List.cons_append, List.nil_append, List.cons.injEq, Seg.u32.injEq, Seg.time.injEq, Seg.bytes.injEq,
+    Seg.str.injEq] at h
+  obtain ⟨-, eB, e1, eL, e2, e3, e4, e5, e6, eS, e7, h⟩ := h
+  change entries "\nJoiner:" t.joining ++ (entries "\nRemainer:" t.remaining ++ entries "\nLeaver:" t.leaving) =
+    entries "\nJoiner:" t'.joining ++ (entries "\nRemainer:" t'.remaining ++ entries "\nLeaver:" t'.leaving) at h
+  have hJ := entries_split "\nJoiner:" _ _ _ _
+    (head_ne _ _ joiner_ne_remainer _ _ (by
+      have := head_ne "\nJoiner:" "\nLeaver:" joiner_ne_leaver t.leaving [] (nil_ne _)
+      simpa using this))
+    (head_ne _ _ joiner_ne_remainer _ _ (by
+      have := head_ne "\nJoiner:" "\nLeaver:" joiner_ne_leaver t'.leaving [] (nil_ne _)
+      simpa using this)) h
+  have hR := entries_split "\nRemainer:" _ _ _ _
+    (by have := head_ne "\nRemainer:" "\nLeaver:" remainer_ne_leaver t.leaving [] (nil_ne _); simpa using this)
+    (by have := head_ne "\nRemainer:" "\nLeaver:" remainer_ne_leaver t'.leaving [] (nil_ne _); simpa using this) hJ.2
+  have hL := entries_split "\nLeaver:" t.leaving t'.leaving [] [] (nil_ne _) (nil_ne _) (by simpa using hR.2)
+  exact ⟨str_cancel "" _ _ "\n" (by simpa using eB), e1, e3, e4, e5, e6, str_cancel "\nScheme: " _ _ "\n" eS, e7,
+    str_cancel "\nLeader:" _ _ "\n" eL, e2, hJ.1, hR.1, hL.1⟩
+
+
+/-- non-vacuity of `c09_every_term_and_boundary_covered`: moving the last remaining member to the front of the leavers —
+the concatenation joining ++ remaining ++ leaving is unchanged — changes the signed message -/
+example :
+    messageForSigning "default" (.proposal dupTerms) dupTerms ≠
+    messageForSigning "default" (.proposal dupTerms) { dupTerms with remaining := [honestL], leaving := [honestM] } := by
+  decide
 
 end Drand.DKG
